@@ -69,8 +69,8 @@ class SystemW(Inference):
         # self._translation_start()
         tseitin_transformation = TseitinTransformation(self.epistemic_state)
         translated_query = tseitin_transformation.query_to_cnf(query)
-        self.epistemic_state["v_cnf_dict"][0] = translated_query[0]
-        self.epistemic_state["f_cnf_dict"][0] = translated_query[1]
+        self.epistemic_state["v_cnf_dict"]["query"] = translated_query[0]
+        self.epistemic_state["f_cnf_dict"]["query"] = translated_query[1]
         wcnf = WCNF()
         if not weakly:
             result = self._rec_inference(
@@ -84,7 +84,7 @@ class SystemW(Inference):
                 # no finite layer: all feasible worlds are equally plausible, so the
                 # query holds iff it has no feasible falsifying world
                 wcnf_f = wcnf.copy()
-                [wcnf_f.append(c) for c in self.epistemic_state["f_cnf_dict"][0]]
+                [wcnf_f.append(c) for c in self.epistemic_state["f_cnf_dict"]["query"]]
                 optimizer = create_optimizer(self.epistemic_state)
                 return not optimizer.minimal_correction_subsets(
                     wcnf_f, deadline=deadline
@@ -118,8 +118,8 @@ class SystemW(Inference):
             softc = self.epistemic_state["nf_cnf_dict"][index]
             [wcnf.append(s, weight=1) for s in softc]
         wcnf_prime = wcnf.copy()
-        [wcnf.append(c) for c in self.epistemic_state["v_cnf_dict"][0]]
-        [wcnf_prime.append(c) for c in self.epistemic_state["f_cnf_dict"][0]]
+        [wcnf.append(c) for c in self.epistemic_state["v_cnf_dict"]["query"]]
+        [wcnf_prime.append(c) for c in self.epistemic_state["f_cnf_dict"]["query"]]
         optimizer = create_optimizer(self.epistemic_state)
         ignore = [
             item
